@@ -8,6 +8,7 @@ package main
 import (
 	"encoding/json"
 	"fmt"
+	"github.com/jech/galene/rtpconn"
 	"sort"
 	"strings"
 	"time"
@@ -495,5 +496,94 @@ func httpConcPrograms() []vrt.Program {
 	return []vrt.Program{
 		httpConcProgram("conc/http-put-put", []string{"put", "put"}),
 		httpConcProgram("conc/http-put-delete", []string{"put", "delete"}),
+		sigConcProgram(),
+	}
+}
+
+// An operator's edittoken command (a real web client: Get, edit, conditional
+// Update inside the handler) against a library editor changing another field
+// of the same token.  Both edits are conditional on what their author read:
+// if both are acknowledged, one of them read the other's result, so the token
+// carries both changes; an acknowledged change that is missing at the end was
+// silently overwritten.
+func sigConcProgram() vrt.Program {
+	name := "conc/library-update-vs-edittoken"
+	return vrt.Program{
+		Name:       name,
+		MaxPreempt: core.Pick(2, 3),
+		Classify:   func(kind, info string) string { return "C16/" + name + "/" + kind },
+		Setup: func() ([]func(), []string, func() (string, *core.Violation)) {
+			freshDisk()
+			httpStatic()
+			exp := vtime.Now().Add(time.Hour)
+			t1 := mkToken("T1", permsA, exp)
+			if _, err := token.Update(t1.Clone(), ""); err != nil {
+				panic(err)
+			}
+			wc := rtpconn.VerifNewClient("c0")
+			fault := ""
+			join, _ := json.Marshal(map[string]any{"type": "join", "kind": "join", "group": "g", "username": "oper", "password": "p"})
+			if err := wc.Handle(join); err != nil || wc.Group() == nil {
+				fault = fmt.Sprint("the operator could not join: ", err)
+			}
+			wc.Written()
+			newExp := vtime.Now().Add(2 * time.Hour).UTC().Truncate(time.Second)
+			var libAck, sigAck bool
+			var sigErr string
+			lib := func() {
+				t, tag, err := token.Get("T1")
+				if err != nil {
+					return
+				}
+				n := t.Clone()
+				n.Permissions = append([]string(nil), permsB...)
+				_, err = token.Update(n, tag)
+				libAck = err == nil
+			}
+			sg := func() {
+				raw, _ := json.Marshal(map[string]any{"type": "groupaction", "kind": "edittoken", "source": "c0",
+					"value": map[string]any{"token": "T1", "expires": newExp.Format(time.RFC3339)}})
+				if err := wc.Handle(raw); err != nil {
+					sigErr = err.Error()
+				}
+				for _, b := range wc.Written() {
+					var m map[string]any
+					if json.Unmarshal(b, &m) == nil && m["type"] == "usermessage" && m["kind"] == "token" {
+						if e, _ := m["error"].(string); e == "" {
+							sigAck = true
+						} else {
+							sigErr = fmt.Sprint(m["value"])
+						}
+					}
+				}
+			}
+			final := func() (string, *core.Violation) {
+				defer wc.Exit(fmt.Errorf("done"))
+				if fault != "" {
+					return "", &core.Violation{Signature: "HARNESS-FAULT", What: fault}
+				}
+				cur, _, err := token.Get("T1")
+				if err != nil {
+					return "", &core.Violation{Signature: "C16/" + name + "/token-lost", What: "the token is gone: " + err.Error()}
+				}
+				fresh := freshView(tokenFile())
+				if fresh.err != "" || fresh.toks["T1"] != norm(cur, false) {
+					return "", &core.Violation{Signature: "C16/" + name + "/fresh-load-differs",
+						What: fmt.Sprintf("the running server holds %s, a freshly started one reads %s", norm(cur, false), fresh.String())}
+				}
+				hasB := strings.Join(cur.Permissions, ",") == strings.Join(permsB, ",")
+				hasExp := cur.Expires != nil && cur.Expires.Equal(newExp)
+				if libAck && !hasB {
+					return "", &core.Violation{Signature: "C16/" + name + "/acknowledged-edit-lost/library-update",
+						What: fmt.Sprintf("the library editor's conditional update (permissions %v) was acknowledged and the operator's edittoken was acknowledged=%v, yet the token ends as %s: the edittoken command wrote a copy made before the other edit", permsB, sigAck, norm(cur, false))}
+				}
+				if sigAck && !hasExp {
+					return "", &core.Violation{Signature: "C16/" + name + "/acknowledged-edit-lost/edittoken",
+						What: fmt.Sprintf("the operator's edittoken (expires %v) was acknowledged, yet the token ends as %s", newExp, norm(cur, false))}
+				}
+				return fmt.Sprint(libAck, sigAck, sigErr != ""), nil
+			}
+			return []func(){lib, sg}, []string{"library-editor", "operator-edittoken"}, final
+		},
 	}
 }
